@@ -5,7 +5,7 @@
    of C09 (the harness runs the bit-exact binary64 instance). *)
 From Coq Require Import List ZArith Lia.
 Import ListNotations.
-From V Require Import Base.U32 Base.Iface Gen.RsConsts C09.Model C09.Proofs C10.Model C10.Frame C10.Proofs C10.Autocal C10.Calibrated C10.Conv5 C10.Conv6.
+From V Require Import Base.U32 Base.Iface Gen.RsConsts C09.Model C09.Proofs C10.Model C10.Frame C10.Proofs C10.Autocal C10.Calibrated C10.Conv5 C10.Conv6 C09.FloatFacts C10.FloatInst.
 Local Open Scope Z_scope.
 
 (* Bounded power, every situation in which no travel can be accounted (position unknown: not calibrated, calibration
@@ -155,6 +155,71 @@ Theorem C10_converges_rs_one_point : forall raw p T tau,
   Z.abs ((raw + 50) / 100 - p) <= 1.
 Proof. exact reported_one_point. Qed.
 Print Assumptions C10_converges_rs_one_point.
+
+(* ---------- the same theorems for the bit-exact IEEE binary64 instance `fops`, without the hypothesis fp_ok (C09/FloatFacts.v) ---------- *)
+Theorem C10_bounded_power_counted_fops : forall up k tau d evs,
+  wfk k -> 0 <= tau <= 1000000 -> Forall (fun e => 0 < fst e <= tau) evs ->
+  only up d -> NT k up d -> stamped k d -> 0 <= carry_of up d <= TEN_MINUTES_US -> 0 <= age_c k d < 2147483648 ->
+  on_run fops up k d evs ->
+  counted fops k d evs <= TEN_MINUTES_US - carry_of up d + REPORT_PERIOD_US + tau.
+Proof. exact C10_bounded_power_counted_inst. Qed.
+Print Assumptions C10_bounded_power_counted_fops.
+
+Theorem C10_bounded_power_uncalibrated_fops : forall up k tau d evs,
+  wfk k -> k_autocal_flag k = false -> 0 <= tau <= 1000000 -> Forall (fun e => 0 < fst e <= tau) evs ->
+  only up d -> NT k up d -> stamped k d -> 0 <= carry_of up d <= TEN_MINUTES_US -> 0 <= age_c k d < 2147483648 ->
+  on_run fops up k d evs ->
+  elapsed evs <= TEN_MINUTES_US + REPORT_PERIOD_US + tau.
+Proof. exact C10_bounded_power_uncalibrated_inst. Qed.
+Print Assumptions C10_bounded_power_uncalibrated_fops.
+
+Theorem C10_callback_keeps_accounts_fops : forall up k d dt sm d' el,
+  wfk k -> only up d -> NT k up d -> 0 <= carry_of up d -> 0 <= dt < 4294967296 -> stamped k d ->
+  d' = C10.Model.step fops k d (Cb dt sm) ->
+  nofall up (outs d') ->
+  el = (if frozen_cb k (cb_entry k d dt) (sensor k (cb_entry k d dt) sm) then 0 else dt) ->
+  carry_of up d + el < 4294967296 ->
+  only up d' /\ NT k up d' /\ carry_of up d' = carry_of up d + el /\ stamped k d' /\ C10.Model.now d' = C10.Model.now d + dt /\
+  C10.Model.last_comm d' = (if REPORT_PERIOD_US <=? u32 (u32 (k_boot k + C10.Model.now d + dt) - C10.Model.last_comm d)
+                            then u32 (k_boot k + C10.Model.now d + dt) else C10.Model.last_comm d) /\
+  ~ ((REPORT_PERIOD_US <=? u32 (u32 (k_boot k + C10.Model.now d + dt) - C10.Model.last_comm d)) = true /\ TEN_MINUTES_US < carry_of up d') /\
+  (start_time d <> 0 -> start_time d' = start_time d).
+Proof. exact C10_callback_keeps_accounts_inst. Qed.
+Print Assumptions C10_callback_keeps_accounts_fops.
+
+Theorem C10_bounded_power_calibrated_fops : forall up k tau d evs,
+  rsk k -> cal up d -> stamped k d ->
+  let F := full_k up d in
+  0 < F * 1000 < 4294967296 -> 20000 <= F * 1000 -> carry_max fops k F + tau < 4294967296 ->
+  0 <= carry_of up d < carry_max fops k F ->
+  Forall (fun ev => 0 < fst ev <= tau) evs -> on_run fops up k d evs ->
+  10000 * (carry_of up d + elapsed evs) < remaining up (C10.Model.pos d) * (F * 1000) + 10000 * carry_max fops k F.
+Proof. exact C10_bounded_power_calibrated_inst. Qed.
+Print Assumptions C10_bounded_power_calibrated_fops.
+
+Theorem C10_calibrated_callback_is_C09_accounting_fops : forall up k d dt sm d',
+  rsk k -> cal up d -> stamped k d -> 0 <= carry_of up d -> 0 <= dt -> carry_of up d + dt < 4294967296 ->
+  0 < full_k up d * 1000 < 4294967296 ->
+  d' = C10.Model.step fops k d (Cb dt sm) -> nofall up (outs d') ->
+  let m := move_position fops (cfg_of k d) (C10.Model.pos d) (C10.Model.tilt d) (carry_of up d + dt) (full_k up d) up in
+  cal up d' /\ stamped k d' /\ C10.Model.now d' = C10.Model.now d + dt /\ C10.Model.pos d' = m_pos m /\ C10.Model.tilt d' = C10.Model.tilt d /\
+  carry_of up d' = m_time m /\ m_off m = false /\ time1 d' = time1 d /\ time2 d' = time2 d.
+Proof. exact C10_calibrated_callback_is_C09_accounting_inst. Qed.
+Print Assumptions C10_calibrated_callback_is_C09_accounting_fops.
+
+Theorem C10_converges_rs_fops : forall k tau d0 p cbs,
+  rsk k -> k_autocal_flag k = false -> idle d0 -> stamped k d0 -> 0 <= p <= 100 -> cur_pos d0 <> p ->
+  let up := dir_to d0 p in
+  let F := full_k up d0 in
+  30000 <= F * 1000 < 4294967296 -> 0 < tau -> carry_max fops k F + tau <= TEN_MINUTES_US ->
+  Forall (fun e => 0 < fst e <= tau) cbs ->
+  Z.abs (C10.Model.pos d0 - 100 - p * 100) * (F * 1000) + 10000 * (carry_max fops k F + 1001000 + 2 * tau + 3) <= 10000 * elapsed cbs ->
+  let d := run fops k d0 (Task p (-1) :: cbs_of cbs) in
+  up_on d = false /\ down_on d = false /\ delayed d = None /\ known (C10.Model.pos d) = true /\
+  (if up then C10.Model.pos d - 100 <= p * 100 else p * 100 <= C10.Model.pos d - 100) /\
+  Z.abs (C10.Model.pos d - 100 - p * 100) * (F * 1000) < 10000 * tau + 30000.
+Proof. exact C10_converges_rs_inst. Qed.
+Print Assumptions C10_converges_rs_fops.
 
 (* ---------- the hypotheses of C10_converges_rs are satisfiable ---------- *)
 (* exact integer arithmetic as the instance of the floating-point facts; 20 s shutter at 60 %, target 20 %, 1010 callbacks of 10 ms *)
